@@ -29,6 +29,7 @@ ASSUMPTIONS = [
     'by_id: other-axis vectors that are all-zero among the kept ids may be '
     'dropped (the implementation filters them; the statement is silent)',
 ]
+ANCHORS = ['Table.subsample']
 REQUIRED = ['second_call_after_inplace_edit', 'without_replacement', 'with_replacement', 'by_id',
             'axis_observation', 'axis_sample', 'vectors_below_n_dropped',
             'seed_reproducibility_checked', 'seed_zero_checked',
